@@ -110,8 +110,10 @@ impl<'tcx> Cx<'tcx> {
         with_no_trimmed_paths!(self.tcx.def_path_str(did))
     }
 
-    fn span(&self, sp: Span) -> J {
+    fn span(&self, sp0: Span) -> J {
         let sm = self.tcx.sess.source_map();
+        // statements produced by macro expansion are attributed to the outermost call site
+        let sp = if sp0.from_expansion() { sp0.source_callsite() } else { sp0 };
         let lo = sm.lookup_char_pos(sp.lo());
         let hi = sm.lookup_char_pos(sp.hi());
         let file = match &lo.file.name {
@@ -126,14 +128,11 @@ impl<'tcx> Cx<'tcx> {
             ("line", J::Int(lo.line as i128)),
             ("col", J::Int(lo.col.0 as i128 + 1)),
             ("end_line", J::Int(hi.line as i128)),
+            ("end_col", J::Int(hi.col.0 as i128 + 1)),
         ];
-        if sp.from_expansion() {
-            let ed = sp.ctxt().outer_expn_data();
+        if sp0.from_expansion() {
+            let ed = sp0.ctxt().outer_expn_data();
             v.push(("exp", s(format!("{}", ed.kind.descr()))));
-            // the outermost call site in user code
-            let cs = sp.source_callsite();
-            let clo = sm.lookup_char_pos(cs.lo());
-            v.push(("call_line", J::Int(clo.line as i128)));
         }
         J::Obj(v)
     }
@@ -428,7 +427,6 @@ impl<'tcx> Cx<'tcx> {
                     let rdid = inst.def_id();
                     v.push(("resolved", s(self.path(rdid))));
                     v.push(("resolved_local", J::Bool(rdid.is_local())));
-                    v.push(("resolved_kind", s(format!("{:?}", std::mem::discriminant(&inst.def)).replace("Discriminant", ""))));
                     v.push(("resolved_shim", s(instance_kind(&inst.def))));
                 }
                 J::Obj(v)
